@@ -81,6 +81,18 @@ def main():
 
     do_history(job.get("history", []), ode_from_string)
     ode = ode_from_string(job["text"])
+    if job.get("try_matrices"):
+        from gotranx import sympytools
+
+        res = {}
+        for fn in ("states_matrix", "rhs_matrix", "jacobi_matrix"):
+            try:
+                getattr(sympytools, fn)(ode)
+                res[fn] = "ok"
+            except Exception as exc:
+                res[fn] = f"{type(exc).__name__}: {exc}"[:200]
+        print("RESULT " + json.dumps({"matrices": res}))
+        return
     if job.get("count_rounding_nodes_of"):
         print("RESULT " + json.dumps({"count": count_rounding_nodes(ode, job["count_rounding_nodes_of"])}))
         return
